@@ -365,6 +365,8 @@ def run(ctx):
     if proof_broken:
         ctx.note("proof obligations failed: %s" % failed)
         ctx.note(out[-1500:])
+    if ok and ctx.tier == "thorough":
+        ctx.coqchk(["XV.C05.Properties_C05"])
     # 4. build model + harness
     have_model = os.path.exists(os.path.join(V.VERIF, "ocaml", "C05", "gen_c05.ml"))
     xm = ctx.ocaml("C05", ["gen_c05"]) if have_model else None
